@@ -63,6 +63,19 @@ pub fn tree_small_files() -> Tree {
     t
 }
 
+/// Duplicate content inside one tree: two identical files stored as their own blocks, and four
+/// identical small files that make two identical successive combined blocks (block = 8).
+pub fn tree_dups() -> Tree {
+    let mut t = empty_tree();
+    put(&mut t, "big_a", Node::file(b"DUPLICATEDUP", T0 + 41));
+    put(&mut t, "big_b", Node::file(b"DUPLICATEDUP", T0 + 42));
+    for (i, name) in ["s1", "s2", "s3", "s4"].iter().enumerate() {
+        put(&mut t, name, Node::file(b"XXXX", T0 + 43 + i as i64));
+    }
+    put(&mut t, "tail", Node::file(b"tt", T0 + 49));
+    t
+}
+
 pub fn opts_s() -> BOpts {
     BOpts::new(2, 8, 6)
 }
